@@ -146,6 +146,18 @@ func (r *c20mbits) note(data []byte) {
 	if n%8 != 0 && n > 8 {
 		r.st.Note("ragged-and-words")
 	}
+	lbNote(r.st, "mbits-len", n)
+	if n >= 63 {
+		nz := 0
+		for _, b := range data {
+			if b != 0 {
+				nz++
+			}
+		}
+		if nz >= 1 && nz <= 2 {
+			lbNote(r.st, "mbits-sparse(1-2-non-zero-bytes)-len", n)
+		}
+	}
 }
 
 func c20NonZero(g *G) byte {
@@ -221,6 +233,7 @@ func genC20Mbits(g *G) {
 		}
 		flush()
 	}
+	genC20MbitsLarge(g)
 }
 
 // ---------------------------------------------------------------- C20.trunc
@@ -256,6 +269,10 @@ func (r *c20trunc) Exec(op []string) string {
 			} else {
 				r.st.Note("invalid-utf8-cut")
 			}
+		}
+		lbNote(r.st, "trunc-len", len(s))
+		if n > 0 && n < len(s) {
+			lbNote(r.st, "trunc-cut-inside-at", n)
 		}
 		got := mstr.Trunc(s, n)
 		return fmt.Sprintf("%s vs=%s vr=%s", c20Hex([]byte(got)), fmtBool(vs), fmtBool(utf8.ValidString(got)))
@@ -372,6 +389,7 @@ func genC20Trunc(g *G) {
 		}
 		g.Each(ops)
 	}
+	genC20TruncLarge(g)
 }
 
 // ---------------------------------------------------------------- C20.natcmp
@@ -428,6 +446,31 @@ func (r *c20natcmp) noteRuns(ss ...[]byte) {
 			longest = max(longest, run)
 		}
 	}
+	if len(ss) >= 2 {
+		cp := 0
+		for cp < len(ss[0]) && cp < len(ss[1]) && ss[0][cp] == ss[1][cp] {
+			cp++
+		}
+		lbNote(r.st, "natcmp-common-prefix", cp)
+	}
+	zrun, nruns := 0, 0
+	for _, s := range ss[:1] {
+		z, in := 0, false
+		for _, c := range s {
+			if c >= '0' && c <= '9' && !in {
+				nruns++
+			}
+			in = c >= '0' && c <= '9'
+			if c == '0' {
+				z++
+				zrun = max(zrun, z)
+			} else {
+				z = 0
+			}
+		}
+	}
+	lbNote(r.st, "natcmp-run-of-zeros", zrun)
+	lbNote(r.st, "natcmp-digit-runs", nruns)
 	switch {
 	case longest > 19:
 		r.st.Note("digit-run>19-digits(overflows-int:impl=model-only)")
@@ -599,6 +642,7 @@ func genC20Natcmp(g *G) {
 		}
 		g.Case(ops)
 	}
+	genC20NatcmpLarge(g)
 }
 
 func init() {
